@@ -21,6 +21,7 @@
 #include <ucontext.h>
 #include <sys/mman.h>
 #include <sys/wait.h>
+#include <signal.h>
 #include <unistd.h>
 
 #define MAXT 3
@@ -71,6 +72,8 @@ static Gran *gran(uintptr_t g)
 static int in_W(uintptr_t g) { int i; for (i = 0; i < nW; ++i) if (W[i] == g) return 1; return 0; }
 
 static void yield_to_sched(void) { int me = cur; swapcontext(&T[me].ctx, &main_ctx); }
+static int npoints_now(void);
+static uint64_t n_point_cap_hits;
 
 extern char __executable_start[], _end[], etext[], edata[];
 
@@ -109,7 +112,13 @@ static void on_access(void *addr, size_t size, int is_write)
         uintptr_t key = base | (g & 0xFFFFFFFFULL) | (base >> 60 == 3 ? (g & 0x0FFFFFFF00000000ULL) : 0);
         Gran *e = gran(key);
         if (is_write) e->wr |= (uint8_t)(1 << cur); else e->rd |= (uint8_t)(1 << cur);
-        if (mode == MODE_EXPLORE && in_W(key)) { ++n_points_total; yield_to_sched(); break; }
+        if (mode == MODE_EXPLORE && in_W(key)) {
+            /* an execution with more conflicting accesses than MAXPOINTS (a whole context handed from one
+             * thread to another, say) runs its tail without further scheduling points: still a valid
+             * execution, checked like the others, but the combination is then reported as not exhausted */
+            if (npoints_now() >= MAXPOINTS - 8) { ++n_point_cap_hits; break; }
+            ++n_points_total; yield_to_sched(); break;
+        }
     }
 }
 
@@ -178,6 +187,7 @@ static void thread_main(int t)
 /* ---------------- one execution under a choice prefix ---------------- */
 typedef struct { int nenabled; int enabled[MAXT]; int chosen; int running_enabled; } Point;
 static Point points[MAXPOINTS]; static int npoints;
+static int npoints_now(void) { return npoints; }
 static int choices[MAXPOINTS];
 
 static void setup_regions(void)
@@ -242,7 +252,9 @@ static uint64_t outcomes[64]; static int noutcomes;
 /* Cold-start mode: each combination runs in a freshly forked child that has made no
  * library call yet, so lazily initialised state (a cached CPU probe, a table built on
  * first use) is first touched concurrently.  The child reports through shared memory. */
-typedef struct { uint64_t evals, traces, shared_acc, priv_acc, points, wtotal, multi; int nviol; int engine; char sig[6][220]; char cd[6][320]; char detail[6][700]; } ColdRes;
+typedef struct { uint64_t evals, traces, shared_acc, priv_acc, points, wtotal, multi; int nviol; int engine; char sig[6][220]; char cd[6][320]; char detail[6][700];
+                 int phase; char running[3000];   /* 2 = exploring: the choice prefix of the execution in progress (for a child that dies) */
+} ColdRes;
 static ColdRes *cold;
 
 static void record_violation(const char *sig, const char *cd, const char *detail)
@@ -299,6 +311,12 @@ static void explore(const int *prefix, int nprefix)
     int n, i, alt;
     int saved[MAXPOINTS]; Point sp[MAXPOINTS];
     if (n_exec >= n_exec_cap) { cap_hit = 1; return; }
+    if (cold) {
+        size_t o = 0; int k;
+        cold->running[0] = 0;
+        for (k = 0; k < nprefix && o + 8 < sizeof(cold->running); ++k) o += (size_t)snprintf(cold->running + o, sizeof(cold->running) - o, " %d", prefix[k]);
+        cold->phase = 2;
+    }
     n = run_execution(prefix, nprefix);
     check_execution();
     if (n > 600) { cap_hit = 1; return; }       /* pathological: too many points to branch on */
@@ -372,10 +390,14 @@ static void run_combo_cold(int n, const int *ops)
     }
     waitpid(pid, &status, 0);
     if (!WIFEXITED(status) || WEXITSTATUS(status) != 0) {
-        char cd[100]; size_t o = (size_t)snprintf(cd, sizeof(cd), "c18cold %d", n);
+        /* hidden global state makes the executions of one process depend on each other, so the replay of a
+         * death during the exploration repeats the whole (deterministic) exploration of the combination */
+        static char cd[200]; size_t o = (size_t)snprintf(cd, sizeof(cd), cold->phase == 2 ? "c18coldall %d" : "c18cold %d", n);
         for (t = 0; t < n; ++t) o += (size_t)snprintf(cd + o, sizeof(cd) - o, " %d", ops[t]);
-        snprintf(cd + o, sizeof(cd) - o, " :");
-        violation("C18/crash-in-cold-start-combination", cd, "child running a cold-start combination died (status 0x%x)", status);
+        o += (size_t)snprintf(cd + o, sizeof(cd) - o, " :");
+        violation("C18/crash-in-cold-start-combination", cd, "the process running this combination died (wait status 0x%x: %s) %s%.600s", status,
+                  WIFSIGNALED(status) ? (WTERMSIG(status) == SIGABRT ? "abort, e.g. the C library detected a corrupted heap or a double free" : (WTERMSIG(status) == SIGSEGV ? "segmentation fault" : "signal")) : "non-zero exit",
+                  cold->phase == 2 ? "during the exploration, in the execution with choice prefix" : "in its first execution", cold->phase == 2 ? cold->running : "");
         return;
     }
     g_cnt.evaluations += cold->evals; g_cnt.traces += cold->traces; n_shared_accesses += cold->shared_acc; n_private_accesses += cold->priv_acc;
@@ -393,7 +415,8 @@ static void body_all(void)
     if (g_opts.replay) {
         int n, ops[MAXT], pre[MAXPOINTS], np = 0, t; const char *p = g_opts.replay; char *colon;
         int coldrun = 0;
-        if (!strncmp(p, "c18cold ", 8)) { skip_shared_setup = 1; coldrun = 1; p += 8; }
+        if (!strncmp(p, "c18coldall ", 11)) { skip_shared_setup = 1; coldrun = 2; p += 11; }
+        else if (!strncmp(p, "c18cold ", 8)) { skip_shared_setup = 1; coldrun = 1; p += 8; }
         else if (!strncmp(p, "c18ns ", 6)) { skip_shared_setup = 1; p += 6; }
         else if (!strncmp(p, "c18 ", 4)) p += 4;
         else engine_error("bad replay");
@@ -405,7 +428,9 @@ static void body_all(void)
         nthr = n; for (t = 0; t < n; ++t) cur_ops[t] = ops[t];
         snprintf(pairname, sizeof(pairname), "replay");
         memset(gtab, 0, sizeof(gtab)); nW = 0;
-        if (coldrun) {
+        if (coldrun == 2) {
+            run_combo(n, ops);       /* the whole exploration of the combination, as the cold child ran it */
+        } else if (coldrun) {
             /* the violation was seen in the first execution of a fresh process: replay exactly that (this process is fresh too) */
             mode = MODE_DISCOVER;
             run_execution(pre, np);
@@ -463,6 +488,7 @@ static void body_all(void)
     note_num("thread_private_accesses", (double)n_private_accesses);
     note_num("scheduling_points_executed", (double)n_points_total);
     note_num("executions_cap_hit", cap_hit);
+    note_num("scheduling_point_cap_hits", (double)n_point_cap_hits);
     if (g_opts.shard == 0) {
         sample_add("pair '%s || %s': discovery execution then exploration of every schedule with <= %d preemptions at accesses to the conflict set", OPS[5].name, OPS[12].name, bound);
         sample_add("triple of shared read-only users: '%s' x3 on one key schedule", OPS[12].name);
@@ -472,6 +498,18 @@ static void body_all(void)
 int main(int argc, char **argv)
 {
     parse_opts(argc, argv);
+    if (g_opts.replay) {
+        /* a replayed schedule may kill the process (that can be the violation): run it in a child */
+        pid_t pid; int status = 0;
+        fflush(stdout);
+        pid = fork();
+        if (pid < 0) engine_error("fork");
+        if (pid == 0) { body_all(); _exit(finish()); }
+        waitpid(pid, &status, 0);
+        if (WIFEXITED(status)) return WEXITSTATUS(status);
+        violation("C18/crash-in-cold-start-combination", g_opts.replay, "the process replaying this schedule died (wait status 0x%x)", status);
+        return finish();
+    }
     body_all();
     return finish();
 }
